@@ -245,6 +245,8 @@ def _self_match(m):
 
 
 def _automorphisms(m):
+    if len(m) > 10:
+        return -1   # bounded: enumeration explodes on many identical fragments
     out = []
     for x in m.get_automorphism_mapping():
         out.append(sorted(x.items()))
